@@ -11,6 +11,8 @@ import traceback
 
 ROOT = os.path.dirname(os.path.dirname(os.path.abspath(__file__)))
 KNOWN_FILE = os.path.join(ROOT, "known_findings.json")
+# sweeps over seeded changes run against scratch copies of the repository and write elsewhere (VF_REPO / VF_OUT)
+OUT = os.environ.get("VF_OUT") or ROOT
 
 
 class MachineryDefect(Exception):
@@ -42,8 +44,11 @@ class Run:
         self.assumptions = []
         self.notes = []
         self._sample_keys = set()
-        os.makedirs(os.path.join(ROOT, "replays", pid), exist_ok=True)
-        os.makedirs(os.path.join(ROOT, "evidence"), exist_ok=True)
+        os.makedirs(os.path.join(OUT, "replays", pid), exist_ok=True)
+        for old in os.listdir(os.path.join(OUT, "replays", pid)):      # replay files describe the latest run only
+            if old.endswith(".json"):
+                os.unlink(os.path.join(OUT, "replays", pid, old))
+        os.makedirs(os.path.join(OUT, "evidence"), exist_ok=True)
 
     # ------------------------------------------------------------------------------
     def sample(self, obj, limit=12):
@@ -106,7 +111,7 @@ class Run:
                "replayed_on_real_code": bool(replayed), "count": 1}
         if extra:
             rec.update(extra)
-        with open(os.path.join(ROOT, path), "w") as f:
+        with open(os.path.join(OUT, path), "w") as f:
             json.dump(rec, f, indent=1, default=str, ensure_ascii=False)
         rec["path"] = path
         self.violations.append(rec)
@@ -125,7 +130,7 @@ class Run:
             "coverage": cov, "assumptions": self.assumptions, "wall_s": round(time.time() - self.t0, 2),
             "violations": len(self.violations), "notes": self.notes,
         }
-        with open(os.path.join(ROOT, "evidence", "%s.json" % self.pid), "w") as f:
+        with open(os.path.join(OUT, "evidence", "%s.json" % self.pid), "w") as f:
             json.dump(ev, f, indent=1, default=str, ensure_ascii=False)
         for k in self.known:
             if k["id"] in self.known_hits:
